@@ -231,8 +231,10 @@ def _init_worker():
     sys.setrecursionlimit(10000)
 
 
-def pmap(fn, items, procs=None, chunk=8, maxtasks=40):
-    """Map in worker processes that are recycled (the library keeps every node it ever built)."""
+def pmap(fn, items, procs=None, chunk=8, maxtasks=5):
+    """Map in worker processes that are recycled (the library keeps every node it ever built, and what a process holds
+    grows faster than linearly with the number of cases it has run: measured 127 MB after 100 C09 cases under one
+    configuration, 670 MB under seven, 3.2 GB after 200 - a worker therefore lives for 5 chunks = 40 cases)."""
     procs = procs or min(16, os.cpu_count() or 4)
     if len(items) <= 2 or os.environ.get('EQL_VERIF_SERIAL'):
         return [fn(x) for x in items]
